@@ -31,9 +31,9 @@ type InterleaveScenario struct {
 	Model     *refts.Model `json:"model"`
 	AltMerges [][]int      `json:"alt_merges,omitempty"`
 	Inserts   []Insertion  `json:"inserts,omitempty"`
-	// PauseAt > 0: the insertion experiment is repeated on a growing source: the reader reports
-	// io.EOF once right before base packet PauseAt (behind whatever was inserted there) and then
-	// carries on, the caller polling again; with and without the inserted packets.
+	// PauseAt > 0: the insertion experiment is repeated on a growing source: the reader is at end
+	// of file right before base packet PauseAt (behind whatever was inserted there) until the
+	// caller has been told ErrNoMorePackets and polls again; with and without the inserted packets.
 	PauseAt int `json:"pause_at,omitempty"`
 	Corrupt   *Corruption  `json:"corrupt,omitempty"`
 	// AllMerges: enumerate EVERY order-preserving merge of the per-PID queues (tiny models of
@@ -65,7 +65,7 @@ func (interleave) Runs(tier string) int64 {
 
 func (interleave) Meta() core.EngineMeta {
 	return core.EngineMeta{
-		Rule:       "One run in five takes a tiny model of independent PIDs (2-3 streams, at most 9 packets) and executes EVERY order-preserving merge of its queues (bounded-exhaustive). Otherwise per-PID packet queues of a reference stream model are merged by the multiplex scheduler under the model's schedule and 2-3 further seeded order-preserving schedules (uniform, bursty, starvation, reverse priority; PAT and PMT PIDs keep their relative order), each PID is also demuxed alone (PMT PIDs together with PID 0), null / adaptation-only / transport-error packets are inserted at seeded positions, and one non-PAT PID is corrupted (payload garbage and/or packet loss). Per PID the delivered sequence must be identical in every variant. evaluations = demux executions; distinct = abstract fingerprint (stream-kind multiset, schedule modes, insertion kinds, corruption mode and kind of the corrupted PID); non-trivial = at least two PIDs. A third of the insertion experiments are repeated on a growing source: the reader reports io.EOF once in front of a base packet (behind whatever was inserted there) and carries on, the caller polling again after ErrNoMorePackets; the per-PID output with the inserted packets must equal the output without them on the same paused reader.",
+		Rule:       "One run in five takes a tiny model of independent PIDs (2-3 streams, at most 9 packets) and executes EVERY order-preserving merge of its queues (bounded-exhaustive). Otherwise per-PID packet queues of a reference stream model are merged by the multiplex scheduler under the model's schedule and 2-3 further seeded order-preserving schedules (uniform, bursty, starvation, reverse priority; PAT and PMT PIDs keep their relative order), each PID is also demuxed alone (PMT PIDs together with PID 0), null / adaptation-only / transport-error packets are inserted at seeded positions, and one non-PAT PID is corrupted (payload garbage and/or packet loss). Per PID the delivered sequence must be identical in every variant. evaluations = demux executions; distinct = abstract fingerprint (stream-kind multiset, schedule modes, insertion kinds, corruption mode and kind of the corrupted PID); non-trivial = at least two PIDs. A third of the insertion experiments are repeated on a growing source: the reader is at end of file in front of a base packet (behind whatever was inserted there) until the caller has been told ErrNoMorePackets and polls again; the per-PID output with the inserted packets must equal the output without them on the same paused reader.",
 		Real:       []string{"astits.Demuxer and everything below it (incl. the package-level sync.Pool)"},
 		Stub:       []string{"refts reference multiplexer", "multiplex scheduler", "PacketChannel (insertions, single-PID corruption)", "SimReader (fault-free)"},
 		FaultKinds: []string{"all-merges", "reschedule", "solo", "reader-eof-pause", "insert-null", "insert-afonly", "insert-tei", "corrupt-garbage", "corrupt-drop"},
@@ -319,8 +319,10 @@ func perPIDFull(pk [][]byte, log *core.Log) map[uint16][]string {
 	return out
 }
 
-// perPIDPaused: like perPIDFull on a reader that reports io.EOF once in front of packet `at`
-// and then carries on; the caller polls again after the first ErrNoMorePackets.
+// perPIDPaused: like perPIDFull on a reader that is at end of file in front of packet `at`
+// until the caller has been told ErrNoMorePackets and polls again. (A source that grows again
+// while the Demuxer is still handing out what it held would make the output depend on the
+// drain order across PIDs, which nothing promises.)
 func perPIDPaused(pk [][]byte, at int, log *core.Log) (map[uint16][]string, int) {
 	cfg := DemuxCfg{PacketSize: 188, Reader: world.ReaderPlan{Kind: "seekable", EOFPauses: []int{at * 188}}}
 	r, sr := world.NewReader(refts.Join(pk), cfg.Reader, log)
@@ -332,6 +334,7 @@ func perPIDPaused(pk [][]byte, at int, log *core.Log) (map[uint16][]string, int)
 				out[x.D.PID] = append(out[x.D.PID], core.Dump(x.D))
 			}
 		}
+		sr.Resume() // ErrNoMorePackets seen: everything pending has been handed out
 	}
 	return out, sr.PauseN
 }
